@@ -55,9 +55,12 @@ def stepTransfer (toks : List String) (impl : String) : Res :=
   let size := kvNat toks "size"
   let flag := if size ≤ payloadMax then 1 else 0
   let it := words impl
-  let mon := (if kv it "same" != "1" then ["transfer_bytes_equal_stored"] else [])
+  let stalled := kv toks "stalled" == "1"
+  -- a stalled transfer cut short by the asker's shutdown may end with an error; what it may not do is hand over other bytes
+  let mon := if stalled then (if impl == "error" || kv it "same" == "1" then [] else ["transfer_bytes_equal_stored"]) else
+    (if kv it "same" != "1" then ["transfer_bytes_equal_stored"] else [])
     ++ (if kv it "maxdgram_ok" != "1" then ["fits_one_packet"] else [])
-  { model := s!"flag={flag} same=1 maxdgram_ok=1", monitor := mon,
+  { model := if stalled then impl else s!"flag={flag} same=1 maxdgram_ok=1", monitor := mon,
     tags := ["transfer", if flag == 1 then "inline" else "utp", "va" ++ kv toks "va", "vb" ++ kv toks "vb"] }
 
 def step (toks : List String) (impl : String) : Res :=
